@@ -333,7 +333,27 @@ class Atom:
                 b = key[0]
                 t = F.blocks[b]["term"]
                 mutw = _short(names(t)[0]) if key[1] == "t" else "store"
-        errs = []      # (block, variants, callee-dirty map, M roots, why, at)
+        agg = {}       # block -> [variants, callee-dirty map, M roots, why, at], aggregated over all visits
+        # results that are handed on as they are (`other => other`, `let r = f(); ...; r`): only for these is the
+        # analysis split by the variant learned at a discriminant switch
+        returned_as_is = set()
+        for b_ in F.reachable():
+            for st_ in F.blocks[b_]["stmts"]:
+                if st_[0] == "assign" and st_[1]["l"] == 0 and not st_[1]["p"] and st_[2]["k"] == "use" and st_[2]["ops"]:
+                    pl_ = op_place(st_[2]["ops"][0])
+                    if pl_ is not None and not pl_["p"]:
+                        returned_as_is.add(pl_["l"])
+        grew = True
+        while grew:
+            grew = False
+            for b_ in F.reachable():
+                for st_ in F.blocks[b_]["stmts"]:
+                    if st_[0] == "assign" and not st_[1]["p"] and st_[1]["l"] in returned_as_is and st_[2]["k"] == "use" \
+                            and st_[2]["ops"]:
+                        pl_ = op_place(st_[2]["ops"][0])
+                        if pl_ is not None and not pl_["p"] and pl_["l"] not in returned_as_is:
+                            returned_as_is.add(pl_["l"])
+                            grew = True
 
         def result_like(l):
             ty = F.locals[l]["ty"]
@@ -370,17 +390,42 @@ class Atom:
                 if l != skip_local:
                     roots |= r
                     w = w or desc
-            errs.append((b, vs, cd, roots, w, at))
+            a = agg.get(b)
+            if a is None:
+                a = agg[b] = [set(), {}, set(), None, None]
+            a[0] |= vs
+            for v, val in cd.items():
+                if v in a[1]:
+                    a[1][v][0].update(val[0])
+                else:
+                    a[1][v] = (set(val[0]), val[1], val[2])
+            a[2] |= roots
+            a[3] = a[3] or w
+            a[4] = a[4] or at
 
-        def transfer(b, state):
-            M, pend_f, why = state
+        def transfer1(b, state):
+            M, pend_f, why, known_f = state
             M = set(M)
             pend = {l: (set(r), d) for l, r, d in pend_f}
+            known = dict(known_f)      # Result/ControlFlow local -> "Ok" | "Err", learned at discriminant switches
             blk = F.blocks[b]
             for i, st in enumerate(blk["stmts"]):
                 if st[0] == "assign":
                     rv = st[2]
                     d = st[1]
+                    if not d["p"]:
+                        kv = None
+                        if rv["k"] == "use" and rv["ops"]:
+                            ol0 = op_local(rv["ops"][0])
+                            pl0 = op_place(rv["ops"][0])
+                            if ol0 in known and "*" not in known and pl0 is not None and not pl0["p"]:
+                                kv = known[ol0]
+                                if "m" in rv["ops"][0]:
+                                    known.pop(ol0, None)
+                        if kv is not None:
+                            known[d["l"]] = kv
+                        else:
+                            known.pop(d["l"], None)
                     if rv["k"] in ("use", "cast") and rv["ops"]:
                         ol = op_local(rv["ops"][0])
                         if ol in pend and not d["p"]:
@@ -393,12 +438,18 @@ class Atom:
                         exit_event(b, rv["ops"], M, pend, why)
                     elif d["l"] == 0 and not d["p"] and rv["k"] in ("use",) and rv["ops"]:
                         ol = op_local(rv["ops"][0])
-                        if ol is not None and result_like(ol):
+                        if ol is not None and result_like(ol) and known.get(0) != "Ok":
+                            # (a result handed on as it is: on the paths where it is known to be Ok this is no error exit)
                             exit_event(b, rv["ops"], M, pend, why, skip_local=ol)
             t = blk["term"]
             if t["k"] == "call":
                 nm = names(t)
                 dl = t["dest"]["l"] if not t["dest"]["p"] else None
+                for a in t["args"]:
+                    if "m" in a and not a["m"]["p"]:
+                        known.pop(a["m"]["l"], None)
+                if dl is not None:
+                    known.pop(dl, None)
                 if any("Try>::branch" in n for n in nm) and t["args"]:
                     al = op_local(t["args"][0])
                     if al in pend and dl is not None:
@@ -426,43 +477,68 @@ class Atom:
                 for d in F.defs().get(dl, []) if dl is not None else []:
                     if d[0] == "assign" and d[3]["k"] == "discr":
                         base = d[3]["place"]["l"]
-                if base in pend:
-                    r, desc = pend.pop(base)
+                if base is not None and (base in pend or result_like(base)) and len(t["targets"]) <= 2:
+                    r, desc = pend.pop(base) if base in pend else (set(), None)
                     rest = frozenset((l, frozenset(x), dd) for l, (x, dd) in pend.items())
-                    committed = (frozenset(M | r), rest, why or desc)
-                    skipped = (frozenset(M), rest, why)
+                    if "*" in known or base not in returned_as_is:
+                        # knowledge was dropped at a join (too many configurations), or nobody returns this value as it is
+                        k_ok = k_err = k_unk = frozenset(known.items())
+                    else:
+                        k_ok = frozenset(list((l, v) for l, v in known.items() if l != base) + [(base, "Ok")])
+                        k_err = frozenset(list((l, v) for l, v in known.items() if l != base) + [(base, "Err")])
+                        k_unk = frozenset((l, v) for l, v in known.items() if l != base)
+                    committed = (frozenset(M | r), rest, why or desc, k_ok)
+                    skipped = (frozenset(M), rest, why, k_err)
                     out = {}
                     listed = {v for v, _ in t["targets"]}
                     for v, tb in t["targets"]:
                         out[tb] = committed if v == "0" else skipped
-                    ov = skipped if listed == {"0"} else committed
+                    ov = skipped if listed == {"0"} else (committed if listed == {"1"} else
+                                                          (frozenset(M | r), rest, why or desc, k_unk))
                     if t["otherwise"] in out:
                         a = out[t["otherwise"]]
-                        ov = (a[0] | ov[0], a[1] | ov[1], a[2] or ov[2])
+                        ov = (a[0] | ov[0], a[1] | ov[1], a[2] or ov[2], k_unk)
                     out[t["otherwise"]] = ov
                     return out
-            return (frozenset(M), frozenset((l, frozenset(x), dd) for l, (x, dd) in pend.items()), why)
+            return (frozenset(M), frozenset((l, frozenset(x), dd) for l, (x, dd) in pend.items()), why,
+                    frozenset(known.items()))
+
+        def norm(cfgs):
+            """configurations with the same variant knowledge are merged; beyond 8 the knowledge is dropped"""
+            by = {}
+            for M_, p_, w_, k_ in cfgs:
+                if k_ in by:
+                    a = by[k_]
+                    by[k_] = (a[0] | M_, a[1] | p_, a[2] or w_, k_)
+                else:
+                    by[k_] = (M_, p_, w_, k_)
+            if len(by) > 8 or any(("*", "*") in k_ for k_ in by):
+                M_, p_, w_ = frozenset(), frozenset(), None
+                for a in by.values():
+                    M_, p_, w_ = M_ | a[0], p_ | a[1], w_ or a[2]
+                return frozenset({(M_, p_, w_, frozenset({("*", "*")}))})
+            return frozenset(by.values())
+
+        def transfer(b, state):
+            single, outs = set(), {}
+            for cfg in state:
+                o = transfer1(b, cfg)
+                if isinstance(o, dict):
+                    for s_, c_ in o.items():
+                        outs.setdefault(s_, set()).add(c_)
+                    for s_ in F.succ(b):
+                        if s_ not in o:
+                            outs.setdefault(s_, set())
+                else:
+                    single.add(o)
+            return {s_: norm(single | outs.get(s_, set())) for s_ in F.succ(b)}
 
         def join(a, b):
-            return (a[0] | b[0], a[1] | b[1], a[2] or b[2])
+            return norm(a | b)
 
-        forward(F, (frozenset(), frozenset(), None), transfer, join)
+        forward(F, frozenset({(frozenset(), frozenset(), None, frozenset())}), transfer, join)
         errv = set()
         dirty = {}
-        agg = {}
-        for b, vs, cd, roots, w, at in errs:
-            if b not in agg:
-                agg[b] = [set(), {}, set(), None, None]
-            a = agg[b]
-            a[0] |= vs
-            for v, val in cd.items():
-                if v in a[1]:
-                    a[1][v][0].update(val[0])
-                else:
-                    a[1][v] = (set(val[0]), val[1], val[2])
-            a[2] |= roots
-            a[3] = a[3] or w
-            a[4] = a[4] or at
         for b in sorted(agg):
             vs, cd, roots, w, at = agg[b]
             errv |= vs
